@@ -226,6 +226,36 @@ CHECKS["C09"] = dict(
     technique="TLA+ encoding model (ObsEncoding.tla) enumerated by TLC + ground truth read from simulator objects for every observation leaf + TLC validation",
 )
 
+# strengthenings made after the two rounds of seeded changes (DESIGN.md 11.6, 11.7), appended to the descriptions above
+TOURS = (" History generation: transition tours of spec/Lifecycle.tla (TLC's state graph of node power x one component's life cycle - service, application, "
+         "file in a folder - at the grain of one agent action + one tick; every (state, action) edge taken at least once) are executed through the real environment.")
+ADDED = {
+    "C01": TOURS + " Every tour episode is validated against EpisodeTrace.tla.",
+    "C02": TOURS + " Observations are judged against the space the ENVIRONMENT declares at that moment (nested and flattened); degenerate dimensions (0 slots) and an "
+           "episode schedule with per-episode view sizes are part of the corpus.",
+    "C09": TOURS + " Observations are recorded at the first visits of every abstract state; the observation walkers see every step.",
+    "C03": " Further ambient profiles: another scenario was built and run earlier in the same process; amplifier scenarios for set-ordered TAP start nodes and for "
+           "scenarios without the optional blocks (nmne_config, thresholds).",
+    "C04": " Also: episode k of a looping episode schedule against the first use of the same schedule entry (rotated schedule) on a routed scenario.",
+    "C05": TOURS + " Every tour step is submitted as a request (walk before, digests around it). Clause ActionNeverUnreachable ties the simulator's own answer to the "
+           "statement; component names that are valid but unusual (digits only, dots, keywords) and misspelt / empty component names among handler parameters are part of the stimulus; "
+           "the harness' walk follows routes registered as component.apply_request.",
+    "C06": " B is also placed behind an inner router (zone decided by the egress interface); a directed cover of single-blocker configurations for every zone pair is always run.",
+    "C08": " A seventh topology: a triangle of routers with asymmetric paths (what a router heard from a neighbour must not replace its route table).",
+    "C10": " Clause QualifyingEventReplacesValue: at a qualifying event a sticky-capable component's value equals what a memory-less twin of the component returns for the "
+           "same state and action (mixed-answers variant).",
+    "C11": TOURS + " The mask of every action-map entry is compared with the harness' walk at every abstract state; the walk follows component.apply_request delegations.",
+    "C12": " Clause NoWorkUnlessOn: in a tick that neither starts nor ends with the node ON no timed operation advances and nothing starts (directed runs with operations in flight).",
+    "C14": TOURS + " Health tracks follow the tour's target items (re-bound on reinstall).",
+    "C18": " Wireless: every access point of a frequency disabled and enabled again within a tick.",
+    "C19": " Clause C2HostOnlyForC2Commands: a threat actor uses the C2 server's host only for the commands the C2 server issues.",
+    "C20": " Also the environment's own path over the episode-scheduled directories past the end of the schedule against an independent reading of the files; probes with "
+           "several routes to one destination.",
+}
+for _k, _v in ADDED.items():
+    if _k in CHECKS:
+        CHECKS[_k]["text"] = CHECKS[_k]["text"] + _v
+
 REASON_TODO = "check not built yet in this session (planned, see DESIGN.md 10); nothing is claimed for it"
 
 
